@@ -1159,13 +1159,16 @@ class _EnumView(ast.NodeTransformer):
         import copy
         self.generic_visit(n)
         it, tg = n.iter, n.target
-        if not (isinstance(it, ast.Call) and isinstance(it.func, ast.Name)
+        plain = isinstance(it, ast.Subscript) and isinstance(
+            tg, ast.Name) and not n.orelse
+        if not plain and not (
+                isinstance(it, ast.Call) and isinstance(it.func, ast.Name)
                 and it.func.id == "enumerate" and len(it.args) == 1
                 and not it.keywords and isinstance(tg, ast.Tuple)
                 and len(tg.elts) == 2 and all(isinstance(
                     e, ast.Name) for e in tg.elts) and not n.orelse):
             return n
-        view = it.args[0]
+        view = it if plain else it.args[0]
         if not (isinstance(view, ast.Subscript) and isinstance(
                 view.value, ast.Name) and isinstance(view.slice, ast.Tuple)
                 and len(view.slice.elts) == 2):
@@ -1175,7 +1178,11 @@ class _EnumView(ast.NodeTransformer):
                 and e0.upper is None and e0.step is None and isinstance(
                     e1, (ast.Name, ast.Constant, ast.Attribute))):
             return n
-        iv, vv, base = tg.elts[0].id, tg.elts[1].id, view.value.id
+        if plain:
+            _EnumView._n = getattr(_EnumView, "_n", 0) + 1
+            iv, vv, base = f"_col_{_EnumView._n}", tg.id, view.value.id
+        else:
+            iv, vv, base = tg.elts[0].id, tg.elts[1].id, view.value.id
         for x in ast.walk(ast.Module(body=n.body, type_ignores=[])):
             if isinstance(x, ast.Name) and isinstance(
                     x.ctx, (ast.Store, ast.Del)) and x.id in (iv, vv, base):
@@ -1205,6 +1212,58 @@ class _EnumView(ast.NodeTransformer):
         return ast.fix_missing_locations(ast.copy_location(new, n))
 
 
+class _RowLoop(ast.NodeTransformer):
+    """`for row in a: .. row[K] ..` -> `for _i in range(len(a)): .. a[_i, K]
+    ..` for a name `a` that the body does not re-bind, when `row` is only
+    ever read through `row[<index>]`."""
+
+    def __init__(self, arrays: set[str]) -> None:
+        self.arrays = arrays
+        self.n = 0
+
+    def visit_For(self, n: ast.For) -> ast.AST:
+        self.generic_visit(n)
+        if not (isinstance(n.iter, ast.Name) and n.iter.id in self.arrays
+                and isinstance(n.target, ast.Name) and not n.orelse):
+            return n
+        arr, row = n.iter.id, n.target.id
+        uses = 0
+        for x in ast.walk(ast.Module(body=n.body, type_ignores=[])):
+            if isinstance(x, ast.Name) and x.id in (arr, row) and \
+                    isinstance(x.ctx, (ast.Store, ast.Del)):
+                return n
+            if isinstance(x, ast.Name) and x.id == row:
+                uses += 1
+        subs = [x for x in ast.walk(ast.Module(body=n.body, type_ignores=[]))
+                if isinstance(x, ast.Subscript) and isinstance(
+                    x.value, ast.Name) and x.value.id == row and isinstance(
+                    x.ctx, ast.Load) and not isinstance(
+                    x.slice, (ast.Slice, ast.Tuple))]
+        if not subs or len(subs) != uses:
+            return n
+        self.n += 1
+        iv = f"_row_{self.n}"
+
+        class S(ast.NodeTransformer):
+            def visit_Subscript(self, m: ast.Subscript) -> ast.AST:
+                self.generic_visit(m)
+                if isinstance(m.value, ast.Name) and m.value.id == row:
+                    return ast.copy_location(ast.Subscript(
+                        value=ast.Name(id=arr, ctx=ast.Load()),
+                        slice=ast.Tuple(elts=[
+                            ast.Name(id=iv, ctx=ast.Load()), m.slice],
+                            ctx=ast.Load()), ctx=ast.Load()), m)
+                return m
+        new = ast.For(
+            target=ast.Name(id=iv, ctx=ast.Store()),
+            iter=ast.Call(func=ast.Name(id="range", ctx=ast.Load()), args=[
+                ast.Call(func=ast.Name(id="len", ctx=ast.Load()),
+                         args=[ast.Name(id=arr, ctx=ast.Load())],
+                         keywords=[])], keywords=[]),
+            body=[S().visit(b) for b in n.body], orelse=[])
+        return ast.fix_missing_locations(ast.copy_location(new, n))
+
+
 def kernel_normalised(fi: "FuncInfo") -> "FuncInfo":
     """`inline_views` plus `while True: if c: break` -> `while not c`."""
     import copy
@@ -1212,6 +1271,10 @@ def kernel_normalised(fi: "FuncInfo") -> "FuncInfo":
     fi = inline_views(fi)
     node = _WhileTrue().visit(copy.deepcopy(fi.node))
     node = ast.fix_missing_locations(_EnumView().visit(node))
+    stored = {x.id for x in ast.walk(node) if isinstance(
+        x, ast.Name) and isinstance(x.ctx, (ast.Store, ast.Del))}
+    node = ast.fix_missing_locations(_RowLoop(
+        {p_ for p_ in fi.params if p_ not in stored}).visit(node))
     return dataclasses.replace(fi, node=node)
 
 
